@@ -636,6 +636,12 @@ static bool run_scope(Ctx& cx, const Opts& opts) {
   if (scope == "poly" || scope == "lines") {
     // ------------------------------------------------------------------ all tuples of distinct lattice points
     std::vector<P> board = lattice(sub, sub, STEP_L);
+    // "spread": the outermost lattice lines are moved far out (first line by -lo, last line by +hi, in x and in y), so that edges
+    // from a corner region can pass round the far corner of the rectangle and end in the diagonally opposite corner region
+    { i64 lo = a.i("lo", 0), hi = a.i("hi", 0), last = (i64)(sub - 1) * STEP_L;
+      if (lo || hi) { auto f = [&](i64 c) { return c <= 0 ? c - lo : (c >= last ? c + hi : c); };
+        for (auto& q : board) { q.x = f(q.x); q.y = f(q.y); }
+        for (auto& R : rects) { R.l = f(R.l); R.r = f(R.r); R.t = f(R.t); R.b = f(R.b); } probes_on = false; } }
     // fixed probe partners for the concatenation clause (board coordinates)
     std::vector<Path> probe_paths;
     if (probes_on) {
@@ -807,6 +813,7 @@ static std::vector<Opts> plan(const std::string& name) {
     p.push_back({{"scope", "rectil"}, {"nmin", "8"}, {"nmax", "8"}, {"sub", "4"}, {"rects", "20,20 40,40;20,10 40,30;10,20 30,40"}, {"sx", "140"}, {"sy", "60"}});
     p.push_back({{"scope", "walks"}, {"len", "5"}, {"wo", "20"}, {"ws", "20"}, {"rects", RB20}});
     p.push_back({{"scope", "walks"}, {"len", "5"}, {"wo", "0"}, {"ws", "40"}, {"rects", RB40}});
+    p.push_back({{"scope", "poly"}, {"nmin", "3"}, {"nmax", "5"}, {"cyclic", "1"}, {"sub", "4"}, {"rects", "20,20 40,40"}, {"lo", "900"}, {"hi", "150"}, {"probes", "0"}});
     p.push_back({{"scope", "poly"}, {"nmin", "3"}, {"nmax", "3"}, {"cyclic", "0"}, {"rects", "quick"}, {"probes", "0"}});
     p.push_back({{"scope", "poly"}, {"nmin", "3"}, {"nmax", "3"}, {"cyclic", "1"}, {"rects", "quick"}, {"mag", "1"}, {"res", "512"}});
     p.push_back({{"scope", "poly"}, {"nmin", "3"}, {"nmax", "4"}, {"cyclic", "1"}, {"rects", "quick"}});
